@@ -157,7 +157,7 @@ func vrtAssert(ex *Exec, fn *ssa.Function, args []Value) []Value {
 					nc := ex.ts.BNot(c)
 					spc, snc := ex.sliced(ex.pc, nc)
 					r := ex.w.solver.Check(spc, snc)
-					x := xcheck{Script: Standalone(spc, snc), Expect: r}
+					x := xcheck{Script: Standalone(spc, snc), Expect: r, Decider: sh.solverKind}
 					sh.mu.Lock()
 					sh.xchecks = append(sh.xchecks, x)
 					sh.mu.Unlock()
